@@ -219,6 +219,31 @@ def run_reused(pystog, case, caller, what):
     outs = call(False, None)
     res = {"xout": outs[0].tolist(), "yout": outs[1].tolist(), "eout": outs[2].tolist()}
     msg = reuse.hold(call, outs, what)
+    if not msg and not case.get("big") and len(case["xin"]) <= 400:
+        # the very same array objects, the data refilled in place between two calls
+        kw = {}
+        if caller is call_named:
+            kw = named_kwargs(case)
+            meth = named_name(case)
+        else:
+            if case["lorch"]:
+                kw["lorch"] = True
+            if case["omitted"]:
+                kw["OmittedXrangeCorrection"] = True
+            if case.get("xmin") is not None:
+                kw["xmin"] = case["xmin"]
+            if case.get("xmax") is not None:
+                kw["xmax"] = case["xmax"]
+            meth = "fourier_transform"
+        d0 = None if case["dy"] is None else np.array(case["dy"], float)
+        arrays = [np.array(case["xin"], float), np.array(case["yin"], float), np.array(case["xout"], float), d0]
+
+        def f_on(obj):
+            m_ = getattr(obj, meth)
+            if meth == "fourier_transform":
+                return lambda a_, b_, c_, d_: m_(a_, b_, c_, dy_in=d_, **kw)
+            return lambda a_, b_, c_, d_: m_(a_, b_, c_, d_, **kw)
+        msg = reuse.refilled_in_place(f_on(tr), f_on(pystog.Transformer()), arrays, 1, what)
     if msg:
         res["reuse_error"] = msg
     return res
